@@ -35,6 +35,11 @@ CHECKS = {
          "Every payload length, GSO segment size x count x last-segment shape, ECN codepoint, explicit source address, receive-buffer shape and GRO on/off, on four socket-pair families, is sent through quinn-udp and fully received before the next; the oracle is the Transmit itself (segments byte-identical, in order, stride splits batches, ecn/addr/dst_ip conveyed). Offload-failure fallback is triggered from user space and the following plain transmits are checked.",
          "Kernel behaviour is not owned: a silent receive is retried and then recorded as inconclusive, only a received-but-wrong result is a violation; memory safety of the unsafe cmsg code as such is outside this family.",
          "DESIGN.md#c19"),
+ "C12": ("E2+E3+E1", "fault_enumeration",
+         "deviation-bounded stateless exploration of real endpoints with a harness-dictated congestion window and a wire-level gate oracle; explicit-state search of the built-in controllers",
+         "With a harness congestion controller dictating the window (2, 3, 10 datagrams, huge) and with Cubic / NewReno / BBR, incl. ECN-CE marks, Retry, rebinding, migration and key update, every execution with <=k fate deviations is run; each emitted datagram is classified by the independent decoder and an ack-eliciting datagram must not leave when bytes in flight (probe value read before the poll_transmit call plus earlier datagrams of the batch) plus its size reach the window, except owed loss probes, one MTU probe, path-validation packets and CONNECTION_CLOSE. After completion on a quiet network bytes in flight must be 0; fault-free runs over latency x controller x ack-frequency x workload must declare no packet lost. Controller minimum-window search (E1) is merged from /verif/comp.",
+         "Bytes in flight / window / owed probes read through the __verif probe; one open known finding (coalescing bypass) is reported as KNOWN-FINDING.",
+         "DESIGN.md#c12"),
  "C20": ("E3", "fault_enumeration",
          "exhaustive insertion-point enumeration with differential (replay / time-translated / extra-call) runs of real endpoints",
          "For a list of input histories (baselines incl. Retry, CID rotation, key update, rebinding, migration, and every single-deviation history) the run is repeated: identically (bit-identical trace incl. every poll_timeout value), with all Instants shifted by 1 s / 1 day / 10 years (identical relative trace), with a spurious handle_timeout or extra poll round inserted at EVERY step index on either side (identical packets, frames and events), and with all datagrams re-fed plus ten timeouts after both sides drained (no output). A timer may not fire more than 16 consecutive times at one instant.",
